@@ -402,3 +402,114 @@ func genC13(t *rapid.T) *Scenario {
 	}
 	return sc
 }
+
+// ---- C09 / C10: fork stages with gated workers
+
+var c09Stages = []string{"fork.map", "fork.map", "fork.fmap", "fork.filter", "fork.partition", "fork.forEach", "fork.void"}
+
+func genForkScript(t *rapid.T, np int, cancel bool, maxLen int) []Move {
+	n := rapid.IntRange(0, maxLen).Draw(t, "scriptLen")
+	kinds := []string{"send", "send", "send", "burst", "burst", "recv", "recv", "recv", "drain", "release", "release", "release", "release", "releaseAll", "close", "batch"}
+	if cancel {
+		kinds = append(kinds, "cancel")
+	}
+	var out []Move
+	for j := 0; j < n; j++ {
+		m := Move{K: rapid.SampledFrom(kinds).Draw(t, "k")}
+		switch m.K {
+		case "burst":
+			m.M = rapid.IntRange(1, 8).Draw(t, "m")
+		case "recv", "drain":
+			m.I = rapid.IntRange(0, max(np-1, 0)).Draw(t, "port")
+		case "release":
+			m.I = rapid.IntRange(0, 7).Draw(t, "which")
+		case "batch":
+			k := rapid.IntRange(2, 3).Draw(t, "nsub")
+			sub := []string{"send", "recv", "release", "release", "close"}
+			if cancel {
+				sub = append(sub, "cancel")
+			}
+			for i := 0; i < k; i++ {
+				s := Move{K: rapid.SampledFrom(sub).Draw(t, "sk")}
+				if s.K == "release" {
+					s.I = rapid.IntRange(0, 7).Draw(t, "which")
+				}
+				if s.K == "recv" {
+					s.I = rapid.IntRange(0, max(np-1, 0)).Draw(t, "port")
+				}
+				m.Sub = append(m.Sub, s)
+			}
+		}
+		out = append(out, m)
+	}
+	return out
+}
+
+func genC09(t *rapid.T) *Scenario {
+	sc := &Scenario{Prop: "C09", Stage: rapid.SampledFrom(c09Stages).Draw(t, "stage"), Gated: true}
+	sc.Par = rapid.IntRange(1, 6).Draw(t, "par")
+	genFunc(t, sc)
+	in := rapid.SliceOfN(rapid.IntRange(0, 20), 0, 16).Draw(t, "in")
+	sc.In = [][]int{in}
+	sc.Caps = []int{rapid.IntRange(0, 3).Draw(t, "cap")}
+	sc.ErrKind = rapid.IntRange(0, 3).Draw(t, "errkind")
+	sc.CtxErr = rapid.Bool().Draw(t, "ctxerr")
+	switch sc.Stage {
+	case "fork.map":
+		sc.Mode = rapid.SampledFrom([]string{"pure", "try", "try", "lift"}).Draw(t, "mode")
+	case "fork.fmap":
+		sc.Mode = rapid.SampledFrom([]string{"tryf", "tryf", "liftf"}).Draw(t, "mode")
+	default:
+		sc.Mode = "pure"
+	}
+	if sc.Mode != "pure" {
+		sc.Fail = rapid.SliceOfNDistinct(rapid.IntRange(0, 20), 0, 8, rapid.ID[int]).Draw(t, "fail")
+		sc.StdErr = rapid.IntRange(0, 4).Draw(t, "stderr") == 0
+	}
+	np := nPortsOf(sc.Stage[5:], sc.Mode, sc.StdErr)
+	switch rapid.SampledFrom([]string{"random", "random", "no-cancel", "hold-one", "cancel-inflight"}).Draw(t, "class") {
+	case "random":
+		sc.Script = genForkScript(t, np, true, 40)
+	case "no-cancel":
+		sc.Script = genForkScript(t, np, false, 40)
+	case "hold-one":
+		// one call is held back until everything else is done and the input is closed
+		sc.Script = []Move{{K: "burst", M: 16}, {K: "close"}}
+		for k := 0; k < 24; k++ {
+			sc.Script = append(sc.Script, Move{K: "release", I: 1 + rapid.IntRange(0, 4).Draw(t, "which")}, Move{K: "drain", I: 0}, Move{K: "drain", I: 1})
+		}
+		sc.Script = append(sc.Script, Move{K: "recv", I: 0}, Move{K: "recv", I: 1}, Move{K: "release", I: 0})
+	case "cancel-inflight":
+		sc.Script = append(genForkScript(t, np, false, 10), Move{K: "burst", M: 8}, Move{K: "cancel"})
+		sc.Script = append(sc.Script, genForkScript(t, np, false, 6)...)
+	}
+	sc.NoFinish = rapid.IntRange(0, 4).Draw(t, "nofinish") == 0
+	return sc
+}
+
+func genC10(t *rapid.T) *Scenario {
+	sc := &Scenario{Prop: "C10", Stage: "fork.fold", Gated: true, Mode: "pure"}
+	sc.Par = rapid.IntRange(1, 6).Draw(t, "par")
+	sc.Monoid = rapid.IntRange(0, len(cmonoids)-1).Draw(t, "monoid")
+	cm := sc.cm()
+	// length by class: empty, shorter than the worker count, longer
+	var n int
+	switch rapid.IntRange(0, 3).Draw(t, "lenclass") {
+	case 0:
+		n = 0
+	case 1:
+		n = rapid.IntRange(0, sc.Par).Draw(t, "n")
+	default:
+		n = rapid.IntRange(sc.Par, 15).Draw(t, "n")
+	}
+	raw := rapid.SliceOfN(rapid.IntRange(0, 20), n, n).Draw(t, "in")
+	in := make([]int, n)
+	for i, x := range raw {
+		in[i] = cm.elem(i, x)
+	}
+	sc.In = [][]int{in}
+	sc.Caps = []int{rapid.IntRange(0, 3).Draw(t, "cap")}
+	cancel := rapid.IntRange(0, 3).Draw(t, "cancel") == 0
+	sc.Script = genForkScript(t, 1, cancel, 40)
+	return sc
+}
